@@ -232,6 +232,11 @@ def apply_mutations(case, dg: bytes, muts):
             sp = ref_split(dg)
             if sp and sp["flags"] & 0x80 and canonical(sp["body_wire"]):
                 dg = dg[:6] + rezero(sp["body_wire"], m[1]) + sp["trailer"]
+        elif op == "bomb":
+            # a zero-coded body that expands beyond the decoder's 0x3000 cap: header still fine, body refused when it is read
+            sp = ref_split(dg)
+            if sp and sp["flags"] & 0x80:
+                dg = dg[:6] + sp["body_wire"] + b"\x00\xff" * m[1] + sp["trailer"]
         elif op == "ackcount":
             if dg and dg[0] & 0x10:
                 dg = dg[:-1] + bytes([m[1]])
@@ -267,7 +272,9 @@ CASE = st.fixed_dictionaries({
 # zero-heavy messages for the re-zero-coding class: force the ZEROCODED flag
 CASE_ZC = st.fixed_dictionaries({
     "msg": gt.message_case(allow_str=False).map(lambda c: dict(c, flags=c["flags"] | 0x80) if len(gt.ref_body(c)) < 0x2F00 else c),
-    "muts": st.lists(st.tuples(st.just("rezero"), st.sampled_from(["pairs", "split", "wrap", "lone"])), min_size=1, max_size=1),
+    "muts": st.one_of(st.lists(st.tuples(st.just("rezero"), st.sampled_from(["pairs", "split", "wrap", "lone"])), min_size=1, max_size=1),
+                      st.lists(st.tuples(st.just("rezero"), st.sampled_from(["pairs", "split", "wrap", "lone"])), min_size=1, max_size=1),
+                      st.lists(st.tuples(st.just("bomb"), st.integers(49, 70)), min_size=1, max_size=1)),
     "inspect": INSPECT,
     "deferred": st.sampled_from([True, True, False]),
 })
